@@ -241,7 +241,7 @@ def run(chk):
     # different exponents, several brackets, numerator brackets
     from . import c13
     gf = gen.Gen(chk.seed + 9, spaces="ov")
-    for case in range(12 if quick else 150):
+    for case in range(25 if quick else 200):
         gf.new_expression(True)
         targets = gf.targets(n=r.choice([0, 2]))
         tsyms = [gen.sym_of(t) for t in targets]
@@ -264,6 +264,24 @@ def run(chk):
         x = build.expand_mul(Expr(total, real=True, target_idx=tsyms))
         roundtrip(chk, x, "roundtrip:fractions",
                   f"fraction sum {case}: {str(x)[:120]}")
+    # the same bracket with different exponents inside one expression
+    from adcgen.sympy_objects import (AntiSymmetricTensor, NonSymmetricTensor,
+                                      Amplitude)
+    i_, j_, a_, b_ = get_symbols("ijab")
+    E_ = lambda s_: NonSymmetricTensor(tn.orb_energy, (s_,))  # noqa
+    V_ = AntiSymmetricTensor(tn.eri, (i_, j_), (a_, b_), 1)
+    X_ = Amplitude(tn.right_adc_amplitude, (a_, b_), (i_, j_))
+    D1, D2 = E_(a_) - E_(i_), E_(b_) - E_(j_)
+    D4 = E_(a_) + E_(b_) - E_(i_) - E_(j_)
+    for k_, sx in enumerate([
+            V_ * X_ / (D1 ** 2 * D2) + V_ * X_ / (D1 * D2),
+            V_ * X_ / D4 ** 2 - 2 * V_ * X_ / D4 + V_ * X_ / D4 ** 3,
+            V_ / (D4 * D1) + V_ / (D4 ** 2 * D1 ** 2),
+            (E_(a_) + E_(b_)) * V_ / D4 ** 2 - (E_(a_) + E_(b_)) ** 2 * V_ / D4,
+            V_ * X_ / (D1 * D2 ** 2) - V_ * X_ / (D1 ** 2 * D2)]):
+        tsy = [] if sx.has(X_) else [i_, j_, a_, b_]
+        roundtrip(chk, build.expand_mul(Expr(sx, real=True, target_idx=tsy)),
+                  "roundtrip:fractions", f"mixed bracket exponents {k_}")
     names_roundtrips(chk, quick)
     chk.judge(chunk=200)
     return chk.finish(
